@@ -2719,4 +2719,41 @@ theorem nfVals_view (R : HashRules) (TR : TypeRules) (k : String) : ∀ (vs : Li
   | v :: vs => by simp [viewVals, nfVals, itemElem_view R TR k v (nf_view R TR v), nfVals_view R TR k vs]
 end
 
+/-! ## Part L: when `dump` reads the raw `_type` field, the `type` view is the identity -/
+
+theorem typeProp_no_rules (R : TypeRules) (hd : ∀ c, R.isDataType c = false) (hc : ∀ c, R.isCast c = false)
+    (cls : String) (ty : Option Val) (args : List Arg) : typeProp R cls ty args = ty := by
+  simp [typeProp, hd, hc]
+
+mutual
+theorem view_id (R : TypeRules) (hd : ∀ c, R.isDataType c = false) (hc : ∀ c, R.isCast c = false) :
+    ∀ (v : Val), v.view R = v
+  | .node cls ty c m args => by
+    simp [Val.view, typeProp_no_rules R hd hc, viewOpt_id R hd hc ty, viewMeta_id R hd hc m, viewArgs_id R hd hc args]
+  | .dtype _ => rfl
+  | .raw _ => rfl
+theorem viewOpt_id (R : TypeRules) (hd : ∀ c, R.isDataType c = false) (hc : ∀ c, R.isCast c = false) :
+    ∀ (o : Option Val), viewOpt R o = o
+  | none => rfl
+  | some v => by simp [viewOpt, view_id R hd hc v]
+theorem viewMeta_id (R : TypeRules) (hd : ∀ c, R.isDataType c = false) (hc : ∀ c, R.isCast c = false) :
+    ∀ (m : Option (List MetaE)), viewMeta R m = m
+  | none => rfl
+  | some l => by simp [viewMeta, viewMetaL_id R hd hc l]
+theorem viewMetaL_id (R : TypeRules) (hd : ∀ c, R.isDataType c = false) (hc : ∀ c, R.isCast c = false) :
+    ∀ (l : List MetaE), viewMetaL R l = l
+  | [] => rfl
+  | .raw k r :: es => by simp [viewMetaL, MetaE.view, viewMetaL_id R hd hc es]
+  | .expr k v :: es => by simp [viewMetaL, MetaE.view, view_id R hd hc v, viewMetaL_id R hd hc es]
+theorem viewArgs_id (R : TypeRules) (hd : ∀ c, R.isDataType c = false) (hc : ∀ c, R.isCast c = false) :
+    ∀ (args : List Arg), viewArgs R args = args
+  | [] => rfl
+  | .one k v :: as => by simp [viewArgs, Arg.view, view_id R hd hc v, viewArgs_id R hd hc as]
+  | .many k vs :: as => by simp [viewArgs, Arg.view, viewVals_id R hd hc vs, viewArgs_id R hd hc as]
+theorem viewVals_id (R : TypeRules) (hd : ∀ c, R.isDataType c = false) (hc : ∀ c, R.isCast c = false) :
+    ∀ (vs : List Val), viewVals R vs = vs
+  | [] => rfl
+  | v :: vs => by simp [viewVals, view_id R hd hc v, viewVals_id R hd hc vs]
+end
+
 end SqlglotModel.Serde
